@@ -131,6 +131,11 @@ func c19Polarity(r *core.Report, f *core.Func) {
 		}
 		v, ok := boolConst(info, res[0])
 		if !ok {
+			// `return err == nil && hasAllRequired`: true exactly when the remaining tests passed
+			if passedEveryTest(p, pred, res[0]) {
+				infos = append(infos, retInfo{rn, true})
+				continue
+			}
 			allConst = false
 			continue
 		}
@@ -903,7 +908,97 @@ func c19EmptyListRestrictsNothing(r *core.Report, pred *core.Func) {
 				"a transaction is rejected because none of the accounts of "+fi.list.Name()+" is present even when that list is empty: a filter without such accounts streams nothing on this path, while the path with the address index skips the test - the streamed set depends on whether an address index is loaded")
 		}
 	}
+	// the same when the list is handed to an any-of helper: a rejection on the side where the helper answered "none of them"
+	for _, nd := range stmtNodes(g) {
+		as, ok := nd.Ast.(*ast.AssignStmt)
+		if !ok || len(as.Rhs) != 1 {
+			continue
+		}
+		c, ok := core.Unparen(as.Rhs[0]).(*ast.CallExpr)
+		if !ok {
+			continue
+		}
+		for _, a := range c.Args {
+			lo := core.ObjOf(info, a)
+			if lo == nil {
+				continue
+			}
+			if _, isSlice := lo.Type().Underlying().(*types.Slice); !isSlice {
+				continue
+			}
+			kind, ans, _ := quantifierCall(p, pred, g, as, lo)
+			if kind != "any" || ans == nil {
+				continue
+			}
+			for _, rn := range g.Returns() {
+				res := returnResults(rn)
+				if len(res) != 1 || !g.Dominates(nd, rn) {
+					continue
+				}
+				if v, isC := boolConst(info, res[0]); !isC || v {
+					continue
+				}
+				ansFalse := false
+				for _, fc := range g.FactsAt(rn) {
+					if fc.Tag == nil && !fc.Truth && core.ObjOf(info, core.Unparen(fc.Expr)) == ans {
+						ansFalse = true
+					}
+				}
+				// `err != nil || !hasOne` taken: the answer may be false on this edge
+				if !ansFalse {
+					for _, d := range g.Dominators(rn) {
+						if d.Kind != core.KEdge || d.Ast == nil || d.Tag != nil || !d.Truth || !g.Dominates(nd, d) {
+							continue
+						}
+						if ce, isE := d.Ast.(ast.Expr); isE {
+							for _, dj := range disjuncts(ce) {
+								if u, isU := core.Unparen(dj).(*ast.UnaryExpr); isU && u.Op == token.NOT && core.ObjOf(info, core.Unparen(u.X)) == ans {
+									ansFalse = true
+								}
+							}
+						}
+					}
+				}
+				if !ansFalse {
+					continue
+				}
+				n++
+				nonEmpty := false
+				for _, fc := range g.FactsAt(rn) {
+					be, ok := core.Unparen(fc.Expr).(*ast.BinaryExpr)
+					if !ok || fc.Tag != nil {
+						continue
+					}
+					lc, isCall := core.Unparen(be.X).(*ast.CallExpr)
+					if !isCall || core.BuiltinName(info, lc) != "len" || len(lc.Args) != 1 || core.ObjOf(info, lc.Args[0]) != lo {
+						continue
+					}
+					v, isC := core.ConstInt(info, be.Y)
+					if !isC {
+						continue
+					}
+					switch {
+					case be.Op == token.GTR && v == 0 && fc.Truth, be.Op == token.NEQ && v == 0 && fc.Truth, be.Op == token.EQL && v == 0 && !fc.Truth,
+						be.Op == token.GEQ && v == 1 && fc.Truth, be.Op == token.LSS && v == 1 && !fc.Truth, be.Op == token.LEQ && v == 0 && !fc.Truth:
+						nonEmpty = true
+					}
+				}
+				r.Check(nonEmpty, rule, fmt.Sprintf("%s#none-of-%s-present-rejects-only-for-a-non-empty-list", pred.Key, core.LocalToken(pred, lo)), pos(r, rn.Ast),
+					"the any-of test rejects only when the list has entries (an empty list places no restriction, as on the path with the address index)",
+					"a transaction is rejected because none of the accounts of "+lo.Name()+" is present even when that list is empty: a filter without such accounts streams nothing on this path, while the path with the address index skips the test - the streamed set depends on whether an address index is loaded")
+			}
+		}
+	}
 	if n == 0 {
 		r.Note("C19.R11: the predicate has no any-of list test of the flag-and-loop shape")
 	}
+}
+
+// disjuncts splits a || b || c.
+func disjuncts(e ast.Expr) []ast.Expr {
+	e = core.Unparen(e)
+	if be, ok := e.(*ast.BinaryExpr); ok && be.Op == token.LOR {
+		return append(disjuncts(be.X), disjuncts(be.Y)...)
+	}
+	return []ast.Expr{e}
 }
